@@ -10,6 +10,87 @@ LME = CK + '.LvsModelError'
 SE = CP + '.SemanticError'
 
 
+def _root_parent_without_dfs(R, sc):
+    """C13.LOP.2 on a non-recursive loader: is there any comparison of a node's parent link whose other side can be None (the expectation for the
+    start node)? Sides are followed through locals, through the elements of work lists (`pending = [x]; pending.append(y); z = pending.pop()`) and
+    through tuple elements. -> a violation when no parent comparison can ever expect None; otherwise nothing is claimed here."""
+    P = R.P
+    R.ob('C13.LOP.2', 'queries terminate: backtracking leaves the tree only at the start node, whose parent link the loader forces to be absent '
+                      '(or the matcher stops at start_id)')
+    mt = ctx(R, CK + '.Checker._match')
+    if any(t.kind == 'test' and 'start_id' in ast.unparse(t.ast) for t in mt.cfg.nodes):
+        return
+    from ..flow import nested_funcs
+    fam = [sc] + [ctx(R, q) for q in nested_funcs(P, sc.qual)]
+
+    def lists_elems(name):
+        """expressions put into the work list `name` anywhere in the family: display elements of its bindings and append / extend arguments"""
+        out = []
+        for cx in fam:
+            for x in ast.walk(cx.f.node):
+                if isinstance(x, ast.Assign) and any(isinstance(t_, ast.Name) and t_.id == name for t_ in x.targets) and isinstance(x.value, (ast.List, ast.Tuple)):
+                    nd = next((n_ for n_ in cx.cfg.nodes if n_.ast is x), None)
+                    out += [(cx, nd, e_) for e_ in x.value.elts]
+                if isinstance(x, ast.Call) and isinstance(x.func, ast.Attribute) and x.func.attr in ('append', 'appendleft', 'extend') \
+                        and isinstance(x.func.value, ast.Name) and x.func.value.id == name and x.args:
+                    nd = next((n_ for n_ in cx.cfg.nodes if any(c_ is x for c_ in n_.calls())), None)
+                    out.append((cx, nd, x.args[0]))
+        return out
+
+    def may_be_none(cx, node, e, depth=0, index=None):
+        """True / False / None (unknown)"""
+        if depth > 6:
+            return None
+        if isinstance(e, ast.Constant):
+            return e.value is None
+        if isinstance(e, (ast.Tuple, ast.List)) and index is not None and index < len(e.elts):
+            return may_be_none(cx, node, e.elts[index], depth + 1)
+        if isinstance(e, ast.Call) and isinstance(e.func, ast.Attribute) and e.func.attr in ('pop', 'popleft') and isinstance(e.func.value, ast.Name):
+            # (an element whose statement is not in the flow graph stands in a helper that was expanded in place: its copy is judged where it now stands)
+            vs = [may_be_none(c2, nd, el, depth + 1, index) for (c2, nd, el) in lists_elems(e.func.value.id) if nd is not None]
+            if not vs:
+                return None
+            return True if any(v is True for v in vs) else (False if all(v is False for v in vs) else None)
+        if isinstance(e, ast.Attribute):
+            return False if e.attr in ('start_id', 'id', 'dest') else None      # node ids
+        if isinstance(e, ast.Name) and node is not None:
+            vs = []
+            for s_ in cx.sources(node, e):
+                if s_.kind == 'expr':
+                    vs.append(may_be_none(s_.ctx, s_.node, s_.expr, depth + 1, index))
+                elif s_.kind == 'unpack':
+                    vs.append(may_be_none(s_.ctx, s_.node, s_.expr, depth + 1, s_.extra))
+                elif s_.kind == 'param':
+                    # a parameter of a nested helper: what its callers pass
+                    pos = [a_.arg for a_ in s_.ctx.f.node.args.args].index(s_.expr) if s_.expr in [a_.arg for a_ in s_.ctx.f.node.args.args] else None
+                    calls = [(c2, n2, c_) for c2 in fam for n2 in c2.cfg.nodes for c_ in n2.calls()
+                             if isinstance(c_.func, ast.Name) and c_.func.id == s_.ctx.f.node.name and pos is not None and pos < len(c_.args)]
+                    vs += [may_be_none(c2, n2, c_.args[pos], depth + 1) for (c2, n2, c_) in calls] or [None]
+                else:
+                    vs.append(None)
+            if not vs:
+                return None
+            return True if any(v is True for v in vs) else (False if all(v is False for v in vs) else None)
+        return None
+    verdicts = []
+    for cx in fam:
+        for t in cx.cfg.nodes:
+            if t.kind == 'test' and isinstance(t.ast, ast.Compare) and len(t.ast.ops) == 1:
+                sides = [t.ast.left, t.ast.comparators[0]]
+                ps = [x for x in sides if isinstance(x, ast.Attribute) and x.attr == 'parent']
+                if len(ps) == 1:
+                    other = sides[1] if sides[0] is ps[0] else sides[0]
+                    verdicts.append((cx, t, may_be_none(cx, t, other)))
+    inst = sc.qual + ' :: some parent comparison can expect "no parent" (the start node)'
+    if verdicts and all(v is False for (_c, _t, v) in verdicts):
+        cx, t, _ = verdicts[0]
+        R.fail('C13.LOP.2', inst, sc.qual, t.ast, f'every comparison of a parent link (`{norm(t.ast)}` ..) expects a node id, never "absent": the parent link of the start '
+               'node is not checked, a model whose start node names a parent is accepted, and the matcher - which leaves its loop only by stepping from the start '
+               'node to "no parent" - never terminates on it', site(cx, t.ast))
+    elif verdicts and any(v is True for (_c, _t, v) in verdicts):
+        R.ok('C13.LOP.2', inst, site(verdicts[0][0], verdicts[0][1].ast), 'a parent comparison can expect None')
+
+
 def run(R):
     memo_rule(R, 'C13.MEM.1', ('ndn.app_support.light_versec.compiler', 'ndn.app_support.light_versec.parser', 'ndn.app_support.light_versec.checker'), 'the compiler rewrites the parse tree in place (pattern names become numbers, '
               'constraint targets become lists), so a parse result handed out twice compiles differently - or not at all - the second time')
@@ -19,6 +100,11 @@ def run(R):
     if len(bullets) != 6:
         raise AnalysisError(f'docs list {len(bullets)} mandatory sanity rules; the checker maps exactly 6 (a new bullet needs a mapped guard)')
     sc = ctx(R, CK + '.Checker._sanity_check')
+    if (CK + '.Checker._sanity_check.<dfs>') not in P.funcs:
+        # the recursive walk is gone (an explicit stack, a method ..): every rule below is anchored in it and cannot be read. One necessary
+        # condition is still decided on whatever stands there now: termination of the matcher needs the *start node's* parent link to be forced
+        # absent (or the matcher to stop at start_id)
+        _root_parent_without_dfs(R, sc)
     df = ctx(R, CK + '.Checker._sanity_check.<dfs>')
     R.ob('C13.GRD.1', 'each documented sanity rule of the binary model has a raising guard in _sanity_check, run by Checker(...) and load()')
     cur, par = [a.arg for a in df.f.node.args.args][:2]
